@@ -3,6 +3,7 @@ package main
 import (
 	"fmt"
 	"go/token"
+	"sort"
 	"strings"
 
 	"golang.org/x/tools/go/ssa"
@@ -405,5 +406,58 @@ func ruleSCCSTACK(c *Ctx) {
 		c.Ok(rule, key+":push-marks", setB.Instrs[0].Pos(), "a vertex is pushed and marked onStack on entry")
 	} else {
 		c.Bad(rule, key+":push-marks", setB.Instrs[0].Pos(), "onStack.Set is not executed unconditionally on entry of strongConnect")
+	}
+}
+
+// LOOPRANGE(closure): each of the three loops of Matrix.Closure visits every vertex: it starts at
+// 0 and runs while v < m.n, with m.n itself as the bound. A shortened range (n-1, or a start at
+// 1) never uses the last (first) vertex as intermediate vertex, source or target, and pairs
+// connected only through it are missing from the closure.
+func ruleCLOSURERANGE(c *Ctx) {
+	const rule = "LOOPRANGE(closure)"
+	f := c.SSAFunc("util/graph", "Matrix.Closure")
+	if f == nil {
+		f = c.SSAFunc("util/graph", "(*Matrix).Closure")
+	}
+	if f == nil {
+		c.Lost(rule, "util/graph.Matrix.Closure", "function not found")
+		return
+	}
+	loops := naturalLoops(f)
+	sort.Slice(loops, func(i, j int) bool { return len(loops[i].Body) > len(loops[j].Body) })
+	n := 0
+	for i, lp := range loops {
+		phi, dir, start := lp.induction()
+		if phi == nil {
+			continue
+		}
+		n++
+		key := fmt.Sprintf("util/graph.Matrix.Closure:loop#%d", i+1)
+		var bound ssa.Value
+		op := ""
+		for _, b := range []*ssa.BasicBlock{lp.Header} {
+			if ifi, ok := b.Instrs[len(b.Instrs)-1].(*ssa.If); ok {
+				if l, o, r, ok := cmpNormV(ifi.Cond, true); ok && stripConv(l) == ssa.Value(phi) {
+					bound, op = r, o
+				}
+			}
+		}
+		st, isK := start.(*ssa.Const)
+		switch {
+		case dir != 1 || !isK || st.Value == nil || st.Int64() != 0:
+			c.Bad(rule, key, phi.Pos(), "the loop over %s does not start at 0 and count upwards", phi.Comment)
+		case bound == nil || op != "<" || vpath(bound) != "m.n":
+			c.Bad(rule, key, phi.Pos(), "the loop over %s does not run while %s < m.n (found: %s %s): not every vertex is used, pairs connected only through a skipped vertex are missing from the closure", phi.Comment, phi.Comment, op, func() string {
+				if bound == nil {
+					return "?"
+				}
+				return vpath(bound)
+			}())
+		default:
+			c.Ok(rule, key, phi.Pos(), "%s ranges over [0, m.n)", phi.Comment)
+		}
+	}
+	if n < 3 {
+		c.add(rule, "count:", token.NoPos, CountDropped, true, "only %d counting loops found in Matrix.Closure (3 expected)", n)
 	}
 }
